@@ -51,7 +51,7 @@ class BaseRequest:
     def _on_env_changed(request, key, v):
         todelete = ()
         if key == 'wsgi.input':
-            todelete = ('forms', 'files', 'params', 'post', 'json', 'body')
+            todelete = ('forms', 'files', 'params', 'post', 'json', 'body', 'body_error')
         elif key == 'QUERY_STRING':
             todelete = ('query', 'params')
         elif key.startswith('HTTP_'):
